@@ -137,58 +137,6 @@ pub open spec fn shift_deframe(pre: Seq<u8>, r: Option<(Seq<u8>, nat)>) -> Optio
     }
 }
 
-/// Reading m octets out of the current chunk is invisible: the same body is deframed from
-/// (those m octets) ++ (the rest read with the decremented descriptor).  This is the step lemma of
-/// every streaming reader, for every short-read schedule.
-pub proof fn lemma_chunk_advance(c: Chunk, s: Seq<u8>, m: nat)
-    requires m <= chunk_rest(c, s).len()
-    ensures
-        deframe_c(c, s) == shift_deframe(s.subrange(0, m as int), deframe_c(chunk_after(c, m), s.skip(m as int))),
-        avail_c(c, s) == s.subrange(0, m as int) + avail_c(chunk_after(c, m), s.skip(m as int)),
-        chunk_rest(c, s) == s.subrange(0, m as int) + chunk_rest(chunk_after(c, m), s.skip(m as int)),
-{
-    let pre = s.subrange(0, m as int);
-    let t = s.skip(m as int);
-    match c {
-        Chunk::Fixed(n) => {
-            if n <= s.len() {
-                assert(s.subrange(0, n as int) =~= pre + t.subrange(0, (n - m) as int));
-            } else {
-                assert(s =~= pre + t);
-            }
-        }
-        Chunk::Indeterminate => {
-            assert(s =~= pre + t);
-        }
-        Chunk::Partial(n) => {
-            if n <= s.len() {
-                let n2 = (n - m) as nat;
-                assert(t.skip(n2 as int) =~= s.skip(n as int));
-                assert(s.subrange(0, n as int) =~= pre + t.subrange(0, n2 as int));
-                match dec_len(s.skip(n as int)) {
-                    Some((l, k)) => {
-                        if !(l is Indeterminate || k < 1 || s.len() < n + k) {
-                            assert(t.skip((n2 + k) as int) =~= s.skip((n + k) as int));
-                            let inner = deframe_c(chunk_of(l), s.skip((n + k) as int));
-                            match inner {
-                                Some((b, used)) => {
-                                    assert(s.subrange(0, n as int) + b =~= pre + (t.subrange(0, n2 as int) + b));
-                                }
-                                None => {}
-                            }
-                            let av = avail_c(chunk_of(l), s.skip((n + k) as int));
-                            assert(s.subrange(0, n as int) + av =~= pre + (t.subrange(0, n2 as int) + av));
-                        }
-                    }
-                    None => {}
-                }
-            } else {
-                assert(s =~= pre + t);
-            }
-        }
-    }
-}
-
 /// a stream that starts with a new-format length header, followed by the packet body in chunks
 pub open spec fn deframe_stream(s: Seq<u8>) -> Option<(Seq<u8>, nat)> {
     match dec_len(s) {
@@ -227,6 +175,66 @@ pub proof fn lemma_partial_step(n: nat, s: Seq<u8>)
             }
         }
         None => { assert(pre + Seq::<u8>::empty() =~= pre); }
+    }
+}
+
+proof fn lemma_chunk_advance_partial(n: nat, s: Seq<u8>, m: nat)
+    requires m <= n, m <= s.len()
+    ensures
+        deframe_c(Chunk::Partial(n), s) == shift_deframe(s.subrange(0, m as int), deframe_c(Chunk::Partial((n - m) as nat), s.skip(m as int))),
+        avail_c(Chunk::Partial(n), s) == s.subrange(0, m as int) + avail_c(Chunk::Partial((n - m) as nat), s.skip(m as int)),
+{
+    let pre = s.subrange(0, m as int);
+    let t = s.skip(m as int);
+    let n2 = (n - m) as nat;
+    if n <= s.len() {
+        lemma_partial_step(n, s);
+        lemma_partial_step(n2, t);
+        assert(t.skip(n2 as int) =~= s.skip(n as int));
+        let mid = t.subrange(0, n2 as int);
+        assert(s.subrange(0, n as int) =~= pre + mid);
+        match deframe_stream(s.skip(n as int)) {
+            Some((b, used)) => { assert((pre + mid) + b =~= pre + (mid + b)); }
+            None => {}
+        }
+        let av = avail_stream(s.skip(n as int));
+        assert((pre + mid) + av =~= pre + (mid + av));
+    } else {
+        assert(s =~= pre + t);
+    }
+}
+
+/// Reading m octets out of the current chunk is invisible: the same body is deframed from
+/// (those m octets) ++ (the rest read with the decremented descriptor).  This is the step lemma of
+/// every streaming reader, for every short-read schedule.
+pub proof fn lemma_chunk_advance(c: Chunk, s: Seq<u8>, m: nat)
+    requires m <= chunk_rest(c, s).len()
+    ensures
+        deframe_c(c, s) == shift_deframe(s.subrange(0, m as int), deframe_c(chunk_after(c, m), s.skip(m as int))),
+        avail_c(c, s) == s.subrange(0, m as int) + avail_c(chunk_after(c, m), s.skip(m as int)),
+        chunk_rest(c, s) == s.subrange(0, m as int) + chunk_rest(chunk_after(c, m), s.skip(m as int)),
+{
+    let pre = s.subrange(0, m as int);
+    let t = s.skip(m as int);
+    match c {
+        Chunk::Fixed(n) => {
+            if n <= s.len() {
+                assert(s.subrange(0, n as int) =~= pre + t.subrange(0, (n - m) as int));
+            } else {
+                assert(s =~= pre + t);
+            }
+        }
+        Chunk::Indeterminate => {
+            assert(s =~= pre + t);
+        }
+        Chunk::Partial(n) => {
+            lemma_chunk_advance_partial(n, s, m);
+            if n <= s.len() {
+                assert(s.subrange(0, n as int) =~= pre + t.subrange(0, (n - m) as int));
+            } else {
+                assert(s =~= pre + t);
+            }
+        }
     }
 }
 
@@ -312,26 +320,50 @@ pub proof fn lemma_deframe_partial_chunk(k: nat, head: Seq<u8>, t: Seq<u8>, b: S
     assert(chunk_of(l) == Chunk::Partial(head.len()));
 }
 
+proof fn lemma_frame_step(body: Seq<u8>, kc: nat, cs: nat, tail: Seq<u8>)
+    requires kc <= 30, pow2(kc) <= body.len(),
+        deframe_stream(frame_from(body.skip(pow2(kc) as int), cs, cs) + tail)
+            == Some((body.skip(pow2(kc) as int), frame_from(body.skip(pow2(kc) as int), cs, cs).len()))
+    ensures deframe_stream(frame_from(body, pow2(kc), cs) + tail) == Some((body, frame_from(body, pow2(kc), cs).len()))
+{
+    let cur = pow2(kc);
+    lemma_pow2_u32(kc);
+    let head = body.subrange(0, cur as int);
+    let rest = body.skip(cur as int);
+    let fr = frame_from(rest, cs, cs);
+    let e = enc_len(PacketLength::Partial(cur as u32));
+    assert(frame_from(body, cur, cs) == e + head + fr);
+    lemma_deframe_partial_chunk(kc, head, fr + tail, rest, fr.len());
+    lemma_len_roundtrip_partial(kc, head);
+    assert(e.len() == 1);
+    assert(e + head + (fr + tail) =~= (e + head + fr) + tail);
+    assert(head + rest =~= body);
+}
+
+/// L1 with the chunk sizes given by their exponents
+pub proof fn lemma_deframe_frame_exp(body: Seq<u8>, kc: nat, ks: nat, tail: Seq<u8>)
+    requires kc <= 30, ks <= 30, body.len() <= u32::MAX
+    ensures deframe_stream(frame_from(body, pow2(kc), pow2(ks)) + tail) == Some((body, frame_from(body, pow2(kc), pow2(ks)).len()))
+    decreases body.len()
+{
+    let cur = pow2(kc);
+    let cs = pow2(ks);
+    lemma_pow2_u32(kc);
+    if body.len() < cur {
+        lemma_deframe_final(body, tail);
+    } else {
+        lemma_deframe_frame_exp(body.skip(cur as int), ks, ks, tail);
+        lemma_frame_step(body, kc, cs, tail);
+    }
+}
+
 /// L1 (pairing): whatever follows on the wire, reading back a framed body yields exactly the body and
 /// stops exactly at the end of the frame.
 pub proof fn lemma_deframe_frame(body: Seq<u8>, cur: nat, cs: nat, tail: Seq<u8>)
     requires is_partial_size(cur), is_partial_size(cs), body.len() <= u32::MAX
     ensures deframe_stream(frame_from(body, cur, cs) + tail) == Some((body, frame_from(body, cur, cs).len()))
-    decreases body.len()
 {
     let kc = choose|k: nat| k <= 30 && cur == #[trigger] pow2(k);
-    lemma_pow2_u32(kc);
-    if body.len() < cur {
-        lemma_deframe_final(body, tail);
-    } else {
-        let head = body.subrange(0, cur as int);
-        let rest = body.skip(cur as int);
-        let fr = frame_from(rest, cs, cs);
-        let e = enc_len(PacketLength::Partial(cur as u32));
-        lemma_deframe_frame(rest, cs, cs, tail);
-        lemma_deframe_partial_chunk(kc, head, fr + tail, rest, fr.len());
-        lemma_len_roundtrip_partial(kc, head);
-        assert(e + head + (fr + tail) =~= (e + head + fr) + tail);
-        assert(head + rest =~= body);
-    }
+    let ks = choose|k: nat| k <= 30 && cs == #[trigger] pow2(k);
+    lemma_deframe_frame_exp(body, kc, ks, tail);
 }
